@@ -1,6 +1,7 @@
 package props
 
 import (
+	"fmt"
 	"math/rand"
 	"os"
 	"sort"
@@ -286,6 +287,9 @@ func init() {
 		partKeepAlive(c, a)
 		partRealBinaryDefaults(c, a, "C08")
 		partGated(c, a, []func(*sut.Proc) *e2.Result{e2.G13FrameWorkerVsLeaver}, 1)
+		// closes and resets placed at every lock-granularity point of a departure
+		// and of a relay in progress: every handler must return
+		partStepThrough(c, a, []string{"leave", "compadd-vs-leave", "action-vs-leave"})
 		return a.finish(c)
 	}
 }
@@ -332,4 +336,55 @@ func partLagging(c *check.Ctx, a *acc) {
 	})
 	c.Coverage["lagging_member_trials"] = done
 	a.add(done, nontrivial, "lagging member: one member stops reading for 0.3-1.5 s while another relays thousands of numbered custom messages (more than socket buffers + the 512-entry send queue hold), then resumes; it and a steadily reading member must each receive every message exactly once, in order; non-trivial when more than 600 messages were relayed", samples...)
+}
+
+// partLagSenders: a lagging member against several concurrent senders (C01, C02, C11).
+func partLagSenders(c *check.Ctx, a *acc) {
+	bin, err := c.WS.Build("lab", "plain")
+	if err != nil {
+		c.Inconc("build failed: " + err.Error())
+		return
+	}
+	type sc struct {
+		flood, size int
+		sync        time.Duration
+	}
+	scs := []sc{{2500, 10000, 0}, {4000, 6000, 25 * time.Millisecond}}
+	if !c.Quick() {
+		scs = append(scs, sc{3000, 10240, 5 * time.Millisecond}, sc{8000, 3000, 0}, sc{2500, 10000, 100 * time.Millisecond}, sc{6000, 4000, 0})
+	}
+	var mu sync.Mutex
+	done, jammed := 0, 0
+	var samples []any
+	parallel(len(scs), 3, func(i int) {
+		p, err := c.WS.StartLab(bin, sut.LabOpts{Name: "lagsenders", Sync: scs[i].sync})
+		if err != nil {
+			c.Inconc(err.Error())
+			return
+		}
+		defer p.Kill()
+		out := e4.LagMixedTrial(p, scs[i].flood, scs[i].size)
+		mu.Lock()
+		defer mu.Unlock()
+		done++
+		if out.Inconclusive != "" {
+			c.Inconc(out.Inconclusive)
+		}
+		for _, f := range out.Findings {
+			c.Report(f)
+		}
+		if out.Jammed {
+			jammed++
+		}
+		if os.Getenv("VERIF_STEP_DEBUG") != "" {
+			for _, f := range out.Findings {
+				fmt.Fprintf(os.Stderr, "lag+senders finding %v %s: %.3000s\n", f.Props, f.Clause, f.Detail)
+			}
+			fmt.Fprintf(os.Stderr, "lag+senders %v: jammed=%v flooded=%d phases=%v received=%v inconc=%q findings=%d\n", scs[i], out.Jammed, out.Flooded, out.Phases, out.Received, out.Inconclusive, len(out.Findings))
+		}
+		samples = append(samples, map[string]any{"engine": "E4 lagging member, several senders", "trial": out.Desc, "jammed": out.Jammed, "relayed_before_jam": out.Flooded, "received": out.Received, "seconds": out.Phases})
+	})
+	c.Coverage["lagging_member_several_senders_trials"] = done
+	c.Coverage["lagging_member_several_senders_jammed"] = jammed
+	a.add(done, jammed, "lagging member, several senders: one member stops reading until another member's custom relays fill the pipeline towards it (socket buffers + 512-entry send queue, the relaying handler waits for room); meanwhile a third member relays customs and adds an entity and a fourth moves its entity three times; the lagging member resumes; it and a steady member must have every relay exactly once in each sender's order, the latest pose, and a newcomer is handed that pose; non-trivial when the pipeline was observed full", samples...)
 }
